@@ -10,5 +10,6 @@ PROP = dict(
     engines=[
         gt("tx", "registry", "TestVerifC30Tx", dict(checks=2500, shards=2), dict(checks=50000, shards=8)),
         gt("bag", "registry", "TestVerifC30Bag", dict(checks=3000, shards=1), dict(checks=50000, shards=4)),
+        gt("system", "overlord/registrystate", "TestVerifC30System", dict(checks=1000, shards=1), dict(checks=25000, shards=4)),
     ],
 )
